@@ -3,6 +3,10 @@
 use vstd::prelude::*;
 verus! {
 
+#[verifier::external_type_specification]
+#[verifier::reject_recursive_types(A)]
+pub struct ExExtendedGcd<A>(num_integer::ExtendedGcd<A>);
+
 /// d is a common divisor of a and b that every common divisor divides (greatest common divisor, d >= 0)
 pub open spec fn is_gcd(d: int, a: int, b: int) -> bool {
     &&& d >= 0
